@@ -12,7 +12,8 @@ CONSTANTS MUTANT
 Fields == <<"env", "signedkind", "sigvals", "type", "spec", "deleg", "exp", "ts", "ver">>
 
 DateClasses == {"ok", "leap_ok", "nonstr", "noZ", "noT", "trailing", "wrongsep", "missing_field", "extra_field", "empty",
-                "unpadded", "lower_tz", "nonascii_digits", "feb30", "h24", "sec60"}
+                "feb30", "month13", "day00", "hour25", "min60",          \* canonical spelling of an instant that does not exist
+                "unpadded", "lower_tz", "nonascii_digits", "h24", "sec60", "year0"}
 ClassesOf(f) ==
   CASE f = "env"        -> {"ok", "extra_top", "no_signatures", "no_signed", "sigs_not_dict", "sigs_null", "not_dict"}
     [] f = "signedkind" -> {"dict", "list", "str", "int", "null"}
@@ -30,7 +31,7 @@ ClassesOf(f) ==
 
 A == "accept"  R == "reject"  U == "unspecified"
 DateVerdict(c) == IF c \in {"ok", "leap_ok"} THEN A
-                  ELSE IF c \in {"unpadded", "lower_tz", "nonascii_digits", "feb30", "h24", "sec60"} THEN U ELSE R
+                  ELSE IF c \in {"unpadded", "lower_tz", "nonascii_digits", "h24", "sec60", "year0"} THEN U ELSE R
 NumVerdict(c) == IF c \in {"ok1", "ok_huge"} THEN A ELSE IF c \in {"bool", "intfloat"} THEN U ELSE R
 (* REQUIREMENT LAYER: what the property statement fixes for each field class *)
 FieldVerdict(f, c) ==
